@@ -110,6 +110,11 @@ def run(rng, tier, model_ok):
         stats["round_trip"] += 1
         stats["via"] += 1
         stats["linear"] += 1
+    # a prefix is its power of ten on every unit, the temperature scales included (the reading is scaled before the zero point moves)
+    from props import c09
+    for q, o in c09.prefixed_items(rng, tier):
+        add(q, o)
+        stats["prefixed_temperature"] = stats.get("prefixed_temperature", 0) + 1
     corpus = vlib.load_corpus("C03")
     off = len(corpus)
     items2 = [(q, None) for q in corpus] + items
